@@ -20,6 +20,8 @@ def array_jobs(tier, prop):
     ops = OPS_FOR.get(prop)
     if ops is not None:
         J = [j for j in J if j.group.split(".")[1] in ops]
+    if prop in ("C05", "C06"):
+        J = [j for j in J if not j.group.startswith("Tuple.")]     # a Tuple holds references, it owns nothing
     return J
 
 def _array_jobs(tier, prop):
